@@ -345,7 +345,12 @@ def gen_promote():
         for pack in itertools.product(types, repeat=n):
             pack = list(pack)
             exps = ref_promote(pack)
-            cls = ','.join(tclass(t) for t in pack)
+            # input class: the multiset of argument kinds (one defect in a promotion rule then gives a handful of
+            # signatures, not one per argument order); a leading bool is its own class because the rule is positional
+            if pack[0] == 'bool' and n > 1:
+                cls = 'leading-bool:' + '+'.join(sorted(tclass(t) for t in pack[1:]))
+            else:
+                cls = '+'.join(sorted(tclass(t) for t in pack))
             nt = n >= 2 and all(e != pack[0] for e in exps)
             yield Case('traits', 'promote_type', cls, 'type', 'xtl::promote_type_t<%s>' % ', '.join(pack), exps, nt)
 
@@ -366,7 +371,7 @@ def gen_logical():
                     continue
                 hits = [i for i, b in enumerate(vec) if b == stop]
                 sel = hits[0] if hits else n - 1
-                cls = 'n%d,%s' % (n, ('decided@%d' % sel) if hits else 'last')
+                cls = '%s,%s' % ('n1' if n == 1 else 'n2+', ('decided-first' if sel == 0 else 'decided-later') if hits else 'undecided')
                 yield Case('traits', fn, cls, 'bool',
                            '%s::value == %s && %s::id == %d && std::is_base_of<%s, %s>::value'
                            % (inst, 'true' if vec[sel] else 'false', inst, sel, args[sel], inst), [], n >= 2,
@@ -398,7 +403,7 @@ def gen_logical_std():
                 e = '%s::value == %s::value' % (x, s)
                 if n > 0:
                     e += ' && %s::id == %s::id' % (x, s)
-                yield Case('traits', fn, 'n%d,vs-std' % n, 'bool', e, [], n >= 2, [('v', 'xtl value', x + '::value'), ('v', 'std value', s + '::value')])
+                yield Case('traits', fn, '%s,vs-std' % ('n0' if n == 0 else 'n1' if n == 1 else 'n2+'), 'bool', e, [], n >= 2, [('v', 'xtl value', x + '::value'), ('v', 'std value', s + '::value')])
     for arg in ('std::true_type', 'std::false_type', 'vfc::yes', 'vfc::no', 'vfc::ic<2>', 'vfc::ic<0>'):
         yield Case('traits', 'negation', 'vs-std', 'bool', 'xtl::negation<%s>::value == std::negation<%s>::value' % (arg, arg), [], True)
 
